@@ -6,6 +6,8 @@ every run and emitted as lean/DuneVerif/Gen/C14.lean:
   layout_right.hh  the same two functions
   extents.hh       extents::product()               loop bounds, product step
   layout_stride.hh mapping::size(extents,strides)   rank-0 value, empty value, initial value, loop bounds, step
+  mdspan.hh        mdspan::size()                   loop bounds, product step
+  mdarray.hh       mdarray::size()                  loop bounds, product step
 
 Every function must have the shape   `T acc = INIT; for (V = LO; V </<= HI; ++V) { [const T j = E;] acc OP= E; } return acc;`
 (braces optional, any variable names, any whitespace/comments).  The pieces are alpha-renamed (loop variable `r`,
@@ -305,6 +307,12 @@ def tr_product(src, name, doc):
     return parts, {}, emit(name, P_PROD, parts, doc)
 
 
+def tr_mdsize(src, name, doc):
+    _, body = body_after(src, r"\bsize\s*\(\s*\)\s*const\s*(?:noexcept)?\s*\{")
+    parts = loop_function(body, ENV_PROD, doc)
+    return parts, {}, emit(name, P_PROD, parts, doc)
+
+
 def tr_size(src, name, doc):
     m, body = body_after(src, r"\bsize\s*\(\s*const\s+\w+\s*&\s*(\w+)\s*,\s*const\s+\w+\s*&\s*(\w+)\s*\)\s*(?:noexcept)?\s*\{")
     ext, strd = m.group(1), m.group(2)
@@ -331,6 +339,8 @@ FUNCS = [
     ("right_stride", "dune/common/std/layout_right.hh", tr_stride, "layout_right::mapping::stride(i)"),
     ("product", "dune/common/std/extents.hh", tr_product, "extents::product()"),
     ("stride_size", "dune/common/std/layout_stride.hh", tr_size, "layout_stride::mapping::size(extents,strides)"),
+    ("mdspan_size", "dune/common/std/mdspan.hh", tr_mdsize, "mdspan::size()"),
+    ("mdarray_size", "dune/common/std/mdarray.hh", tr_mdsize, "mdarray::size()"),
 ]
 
 # The reference: the functions as they read when the theorems were written.
@@ -398,15 +408,32 @@ REFERENCE = {
       }
     }
   }""",
+    "mdspan_size": """
+  constexpr size_type size () const noexcept
+  {
+    size_type s = 1;
+    for (rank_type r = 0; r < rank(); ++r)
+      s *= extent(r);
+    return s;
+  }""",
+    "mdarray_size": """
+  constexpr size_type size () const noexcept
+  {
+    size_type s = 1;
+    for (rank_type r = 0; r < rank(); ++r)
+      s *= extent(r);
+    return s;
+  }""",
 }
 
 GEN = "DuneVerif/Gen/C14.lean"
-HEADER = ("-- GENERATED by tools/translators/tr_c14.py from dune/common/std/{layout_left,layout_right,layout_stride,extents}.hh"
+HEADER = ("-- GENERATED by tools/translators/tr_c14.py from dune/common/std/{layout_left,layout_right,layout_stride,extents,mdspan,mdarray}.hh"
           " -- do not edit\n")
 
 
 def same_function(name, new, ref, samples=3000):
-    """do the two translations compute the same values?  (ranks 1..5, small extents >= 1, valid indices, any strides)"""
+    """do the two translations compute the same values?  (ranks 1..5, small extents incl. 0 and 1, valid indices where
+       the index space is not empty, any strides)"""
     pn, cn, _ = new
     pr, cr, _ = ref
     if cn != cr:
@@ -414,8 +441,11 @@ def same_function(name, new, ref, samples=3000):
     rng = random.Random(14)
     for _ in range(samples):
         rank = rng.randint(1, 5)
-        E = [rng.randint(1, 5) for _ in range(rank)]
-        I = [rng.randint(0, e - 1) for e in E]
+        if name in ("left", "right", "stride_size"):  # only called for non-empty index spaces
+            E = [rng.randint(1, 5) for _ in range(rank)]
+        else:
+            E = [rng.choice((0, 1, 1, 2, 3, 4, 5)) if rng.random() < 0.3 else rng.randint(1, 5) for _ in range(rank)]
+        I = [rng.randint(0, max(e - 1, 0)) for e in E]
         S = [rng.randint(0, 9) for _ in range(rank)]
         env = {"rank": rank, "i": rng.randint(0, rank - 1),
                "extent": (lambda k, E=E: E[k] if 0 <= k < len(E) else 0),
